@@ -1,0 +1,93 @@
+//go:build verif
+
+package gtprovider
+
+// Machine-checked contracts for /verif (gowp). Comment-only file: it adds no code.
+
+// ---- C19 ----
+// The three caches are protected by their mutexes; everything else is fixed at construction.
+//@ type Provider
+//@   field baseTemplate guarded_by baseMutex
+//@   field layouts guarded_by layoutMutex
+//@   field views guarded_by viewMutex
+//@   private layouts
+//@   private views
+//@   private baseTemplate
+//@   field fs immutable
+//@   field helpersPath immutable
+//@   field layoutPath immutable
+//@   field viewPath immutable
+//@   field extension immutable
+//@   field funcs immutable
+//@   field isCached immutable
+//@ type TemplateLoader
+//@   field template immutable
+//@   field muTemplate immutable
+
+// Definitions are only ever parsed into the template the loader was created for.
+//@ func NewTemplateLoader [C19]
+//@   ensures result != nil && fresh(result) && result.template == template && result.muTemplate != nil
+//@ func (*TemplateLoader).Load [C19]
+//@   layers contract trace
+//@   requires fs != nil
+//@   trace Parse as PARSE
+//@   at_call Parse requires $0 == loader.template
+//@   trace_ensures true : ^(PARSE )?$
+
+//@ func (*Provider).Base [C19]
+//@   layers contract lock
+//@   requires provider.fs != nil
+//@ func (*Provider).Layout [C19]
+//@   layers contract lock
+//@   requires provider.fs != nil && provider.layouts != nil
+//@ func (*Provider).View [C19]
+//@   layers contract lock
+//@   requires provider.fs != nil && provider.views != nil && provider.layouts != nil
+
+// base: helper definitions are parsed into a new template; the cached value is the returned one
+//@ func (*Provider).base [C19]
+//@   layers contract trace lock
+//@   requires provider.fs != nil
+//@   trace text/template.New as NEW bind created
+//@   trace NewTemplateLoader as LOADER
+//@   trace WalkFS as WALK
+//@   at_call NewTemplateLoader requires $0 == created
+//@   ensures err == nil && old(provider.baseTemplate) != nil ==> baseTemplate == old(provider.baseTemplate)
+//@   ensures provider.baseTemplate != old(provider.baseTemplate) ==> err == nil && provider.isCached && provider.baseTemplate == baseTemplate
+//@   trace_ensures old(provider.baseTemplate) != nil : ^$
+
+// layout: a clone of Base() is extended with the layout's files; never the base itself
+//@ func (*Provider).layout [C19]
+//@   layers contract trace lock
+//@   requires provider.fs != nil && provider.layouts != nil
+//@   trace (*Provider).Base as BASE bind based
+//@   trace Clone as CLONE bind cloned
+//@   trace NewTemplateLoader as LOADER
+//@   trace WalkFS as WALK
+//@   at_call Clone requires $0 == based.0
+//@   at_call NewTemplateLoader requires $0 == cloned.0
+//@   ensures err == nil && old(has(provider.layouts, name)) ==> layoutTemplate == old(provider.layouts[name])
+//@   ensures err == nil && !old(has(provider.layouts, name)) ==> layoutTemplate == cloned.0 || layoutTemplate == based.0
+//@   ensures err == nil && !old(has(provider.layouts, name)) && provider.isCached && has(provider.layouts, name) ==> provider.layouts[name] == layoutTemplate
+//@   ensures !provider.isCached || err != nil ==> mapAt(provider.layouts, ref(provider.layouts), 0) == old(mapAt(provider.layouts, ref(provider.layouts), 0))
+//@   ensures foralls(k, old(has(provider.layouts, k)) ==> has(provider.layouts, k) && provider.layouts[k] == old(provider.layouts[k]))
+//@   trace_ensures old(has(provider.layouts, name)) : ^$
+
+// view: a clone of Layout(layoutName) is extended with the view's files
+//@ func (*Provider).view [C19]
+//@   layers contract trace lock
+//@   requires provider.fs != nil && provider.views != nil && provider.layouts != nil
+//@   trace (*Provider).Layout as LAYOUT bind laid
+//@   trace Clone as CLONE bind cloned
+//@   trace NewTemplateLoader as LOADER
+//@   trace WalkFS as WALK
+//@   at_call (*Provider).Layout requires $1 == layoutName
+//@   at_call Clone requires $0 == laid.0
+//@   at_call NewTemplateLoader requires $0 == cloned.0
+//@   ensures err == nil && old(has(provider.views, key)) ==> viewTemplate == old(provider.views[key])
+//@   ensures err == nil && !old(has(provider.views, key)) ==> viewTemplate == cloned.0 || viewTemplate == laid.0
+//@   ensures err == nil && !old(has(provider.views, key)) && provider.isCached ==> has(provider.views, key) && provider.views[key] == viewTemplate
+//@   ensures !provider.isCached || err != nil ==> mapAt(provider.views, ref(provider.views), 0) == old(mapAt(provider.views, ref(provider.views), 0))
+//@   ensures foralls(k, old(has(provider.views, k)) ==> has(provider.views, k) && provider.views[k] == old(provider.views[k]))
+//@   trace_ensures old(has(provider.views, key)) : ^$
+//@   trace_ensures !old(has(provider.views, key)) && err == nil : (^LAYOUT CLONE LOADER WALK $|^LAYOUT $)
